@@ -222,6 +222,29 @@ fn update<H: HashAlgorithm>(
     };
 
     let pending_ops = shared.take_root_pending();
+    #[cfg(nomt_verif)]
+    let verif_pending = pending_ops
+        .iter()
+        .map(|(pos, op)| {
+            (
+                crate::verif_api::split_trace::bits(pos),
+                match op {
+                    RootPagePending::Node(node) => {
+                        crate::verif_api::split_trace::Pending::Node(*node)
+                    }
+                    RootPagePending::SubTrie {
+                        range_start,
+                        range_end,
+                        prev_terminal,
+                    } => crate::verif_api::split_trace::Pending::SubTrie {
+                        range_start: *range_start,
+                        range_end: *range_end,
+                        has_prev_terminal: prev_terminal.is_some(),
+                    },
+                },
+            )
+        })
+        .collect::<Vec<_>>();
     let mut root_page_updater = PageWalker::<H>::new(root, None);
 
     // Ensure the root page updater holds the root page. It is possible that this worker did not
@@ -258,6 +281,12 @@ fn update<H: HashAlgorithm>(
         Output::Root(new_root, updates) => {
             output.updated_pages.extend(updates);
             output.root = Some(new_root);
+            #[cfg(nomt_verif)]
+            crate::verif_api::split_trace::push(crate::verif_api::split_trace::Event::RootPage {
+                shard: output.verif_shard.unwrap_or(usize::MAX),
+                pending: verif_pending,
+                new_root,
+            });
         }
         Output::ChildPageRoots(_, _) => unreachable!(),
     };
@@ -276,6 +305,8 @@ struct RangeUpdater<H> {
     page_walker: PageWalker<H>,
     range_start: usize,
     range_end: usize,
+    #[cfg(nomt_verif)]
+    verif_shard: usize,
 }
 
 impl<H: HashAlgorithm> RangeUpdater<H> {
@@ -302,6 +333,18 @@ impl<H: HashAlgorithm> RangeUpdater<H> {
             .read_write
             .partition_point(|(key, _)| *key <= key_range_end);
 
+        #[cfg(nomt_verif)]
+        let verif_shard = match write_pass.region() {
+            ShardIndex::Root => usize::MAX,
+            ShardIndex::Shard(i) => *i,
+        };
+        #[cfg(nomt_verif)]
+        crate::verif_api::split_trace::push(crate::verif_api::split_trace::Event::Worker {
+            shard: verif_shard,
+            range_start,
+            range_end,
+        });
+
         RangeUpdater {
             shared,
             write_pass,
@@ -309,6 +352,8 @@ impl<H: HashAlgorithm> RangeUpdater<H> {
             page_walker: PageWalker::<H>::new(root, Some(ROOT_PAGE_ID)),
             range_start,
             range_end,
+            #[cfg(nomt_verif)]
+            verif_shard,
         }
     }
 
@@ -350,6 +395,16 @@ impl<H: HashAlgorithm> RangeUpdater<H> {
         // witness / pushing pending responsibility falls on the worker whose range this falls
         // inside.
         if !batch_starts_in_our_range {
+            #[cfg(nomt_verif)]
+            crate::verif_api::split_trace::push(crate::verif_api::split_trace::Event::Batch {
+                shard: self.verif_shard,
+                start: start_index,
+                next: next_index,
+                position: crate::verif_api::split_trace::bits(&seek_result.position),
+                owned: false,
+                non_exclusive: false,
+                has_writes,
+            });
             return next_index;
         }
 
@@ -361,6 +416,17 @@ impl<H: HashAlgorithm> RangeUpdater<H> {
             .page_id
             .as_ref()
             .map_or(true, |p_id| !self.region.contains_exclusive(p_id));
+
+        #[cfg(nomt_verif)]
+        crate::verif_api::split_trace::push(crate::verif_api::split_trace::Event::Batch {
+            shard: self.verif_shard,
+            start: start_index,
+            next: next_index,
+            position: crate::verif_api::split_trace::bits(&seek_result.position),
+            owned: true,
+            non_exclusive: is_non_exclusive,
+            has_writes,
+        });
 
         if is_non_exclusive {
             self.shared.push_pending_subtrie(
@@ -531,6 +597,25 @@ impl<H: HashAlgorithm> RangeUpdater<H> {
 
         debug_assert!(!updates.iter().any(|item| item.page_id == ROOT_PAGE_ID));
         output.updated_pages = updates;
+
+        #[cfg(nomt_verif)]
+        {
+            output.verif_shard = Some(self.verif_shard);
+            crate::verif_api::split_trace::push(
+                crate::verif_api::split_trace::Event::WorkerDone {
+                    shard: self.verif_shard,
+                    witnessed_start: output.witnessed_start,
+                    witnessed_batches: output
+                        .witnessed_paths
+                        .as_ref()
+                        .map(|paths| paths.iter().map(|p| p.2).collect()),
+                    child_roots: new_nodes
+                        .iter()
+                        .map(|(pos, node)| (crate::verif_api::split_trace::bits(pos), *node))
+                        .collect(),
+                },
+            );
+        }
 
         self.shared.push_pending_root_nodes(new_nodes);
 
